@@ -286,23 +286,19 @@ func (fields List) Get(name string) Field {
 			data = btoa(b[i+n : i+n+x])
 			i += n + x
 		}
-		if kind == JSON && isj {
-			if jname < fname {
-				break
+		if kind == JSON && isj && fname == jname {
+			// a path into the JSON document of field jname
+			res := gjson.Get(data, jpath)
+			if res.Exists() {
+				return bfield(name, Kind(res.Type), res.String())
 			}
-			if fname == jname {
-				res := gjson.Get(data, jpath)
-				if res.Exists() {
-					return bfield(name, Kind(res.Type), res.String())
-				}
-			}
-		} else {
-			if name < fname {
-				break
-			}
-			if fname == name {
-				return bfield(name, kind, data)
-			}
+		}
+		// the list is sorted by the full name
+		if name < fname {
+			break
+		}
+		if fname == name {
+			return bfield(name, kind, data)
 		}
 	}
 	return ZeroField
